@@ -198,7 +198,8 @@ def run(chk):
     cases = [c for c in rows if c["mut"] != ""]
     for b in base:
         if b["cres"] != "ok" or b["sres"] != "ok" or b["creads"] == 0 or b["sreads"] == 0:
-            chk.broken("undisturbed handshake of variant %s does not complete" % b["variant"]["name"], json.dumps(b))
+            chk.broken("undisturbed handshake of variant %s does not complete (schedule %r)" % (
+                b["variant"]["name"], b.get("sched", "")), json.dumps(b))
     for c in cases:
         if c["rt_diff"]:
             chk.broken("decode/encode of an unmodified %s message does not reproduce its bytes" % c["mut"], json.dumps(c))
@@ -250,6 +251,8 @@ def run(chk):
         sig = {"monitor": "%s reports success after a rewritten handshake message" % "+".join(who or leaked),
                "version": v["ver"], "handshake": "resumed" if e["resumed"] else "full",
                "client_auth": v["suite"] == "certca"}
+        if c.get("sched"):
+            sig["schedule"] = c["sched"]
         if who == ["server"] and not e["resumed"]:
             f5_cases.append(c)
         key = json.dumps(sig, sort_keys=True)
@@ -257,16 +260,27 @@ def run(chk):
             continue
         reported.add(key)
         chk.finding(SITE_F5 if who == ["server"] else "handshake", sig,
-                    "%s reports a successful handshake although %s was rewritten in transit (%s -> %s); variant %s: "
-                    "client=%s server=%s%s" % (
-                        "+".join(who or leaked), c["mut"], *c["dir"].split("2"), v["name"], c["cres"], c["sres"],
-                        (", negotiated parameter steered: %s" % json.dumps(steered(c))) if steered(c) else ""),
-                    {"how": "TestVerifC04 with C04_ONLY=%s:%s : real client and server (variant: suite class, "
+                    "%s reports a successful handshake although %s was rewritten in transit (%s -> %s); variant %s%s: "
+                    "client=%s server=%s%s; all such runs: %s" % (
+                        "+".join(who or leaked), c["mut"], *c["dir"].split("2"), v["name"],
+                        ", every datagram delivered as one datagram per record" if c.get("sched") == "split" else "",
+                        c["cres"], c["sres"],
+                        (", negotiated parameter steered: %s" % json.dumps(steered(c))) if steered(c) else "",
+                        " ".join(sorted("%s/%s%s" % (k["variant"]["name"], k["mut"], ":" + k["sched"] if k.get("sched") else "")
+                                        for k in cases
+                                        if (effect(k["variant"], k["mut"]) or {"effect": "ENone"})["effect"] != "ENone"
+                                        and [x for x in (k["cres"], k["sres"]) if x == "ok"] == ["ok"] * len(who)
+                                        and (k["sres"] == "ok") == ("server" in who)
+                                        and (k["cres"] == "ok") == ("client" in who)
+                                        and k.get("sched", "") == c.get("sched", ""))[:40])),
+                    {"how": "TestVerifC04 with C04_ONLY=%s:%s%s : real client and server (variant: suite class, "
                             "ExtendedMasterSecret %s on both sides, %s handshake), every epoch-0 record carrying handshake type %d "
                             "in direction %s is decoded with handshake.Handshake.Unmarshal, mutation `%s` applied, re-encoded "
                             "(lengths recomputed, message_seq kept) and delivered instead; cres/sres = HandshakeContext result "
-                            "class of client / server" % (
-                                v["name"], c["mut"], "Request (default)" if v["ems"] else "Disable",
+                            "class of client / server; schedule split = every datagram (both directions, after rewriting) is "
+                            "delivered as one datagram per record, in order, the receiver run to quiescence after each" % (
+                                v["name"], c["mut"], ":split" if c.get("sched") == "split" else "",
+                                "Request (default)" if v["ems"] else "Disable",
                                 "resumed" if v["resumed"] else "full", c["htype"], c["dir"], c["mut"]),
                      "case": c, "steered": steered(c),
                      "rerun": "VERIF_SEED=%d bin/check C04 --tier %s" % (chk.seed, chk.tier)})
@@ -289,7 +303,8 @@ def run(chk):
                 c = known[j]
                 e = effect(c["variant"], c["mut"])
                 viol = (c["cres"] == "ok" or c["sres"] == "ok") and (e["effect"] != "ENone" or bool(param_diffs(c)))
-                chk.finding("handshake", {"monitor": "model-mismatch", "variant": c["variant"]["name"], "mut": c["mut"]},
+                chk.finding("handshake", {"monitor": "model-mismatch", "variant": c["variant"]["name"], "mut": c["mut"],
+                                          "schedule": c.get("sched", "")},
                             "who reports success (or, for a rewrite outside the transcript, a negotiated parameter) differs from "
                             "the symbolic model Hs/C04Run.v [%s / %s]: client=%s server=%s params %s" % (
                                 c["variant"]["name"], c["mut"], c["cres"], c["sres"], json.dumps(param_diffs(c))),
@@ -306,7 +321,7 @@ def run(chk):
                            json.dumps(known[sorted(py ^ set(bad2))[0]]))
 
     storms = [c for c in cases if c["storm"]]
-    chk.count("rewriter", len(cases), [(c["variant"]["name"], c["mut"]) for c in cases],
+    chk.count("rewriter", len(cases), [(c["variant"]["name"], c["mut"], c.get("sched", "")) for c in cases],
               samples=[{"variant": c["variant"]["name"], "mut": c["mut"], "cres": c["cres"], "sres": c["sres"],
                         "steered": steered(c)} for c in (f5_cases[:2] or cases[:2])])
     chk.cov["traces_validated_against_impl"] = len(rows)
@@ -316,6 +331,7 @@ def run(chk):
         per_type[k] = per_type.get(k, 0) + 1
     chk.leg_info("rewriter", variants=sorted({c["variant"]["name"] for c in rows}),
                  mutations=sorted({c["mut"] for c in cases}), per_direction_and_type=per_type,
+                 split_schedule_runs=len([c for c in cases if c.get("sched") == "split"]),
                  server_only_success=sorted({"%s/%s" % (c["variant"]["name"], c["mut"]) for c in f5_cases}),
                  steered=sorted({"%s/%s: %s" % (c["variant"]["name"], c["mut"], json.dumps(steered(c)))
                                  for c in f5_cases if steered(c)}),
@@ -333,7 +349,9 @@ def run(chk):
              "({cert, cert+client-auth, PSK, ECDHE-PSK} x {EMS Request, Disable} x full, {cert, PSK} x EMS x resumed, 2 with "
              "connection IDs, 2 DTLS 1.3 incl. HelloRetryRequest) x %d mutations over ClientHello, HelloVerifyRequest, "
              "ServerHello, Certificate (both directions), ServerKeyExchange, CertificateRequest, ClientKeyExchange, "
-             "CertificateVerify. Non-trivial = every rewritten run; distinct by (variant, mutation)." % (
+             "CertificateVerify; delivery schedule: datagrams as emitted, and 'split' = one datagram per record with the "
+             "receiver run to quiescence after each (quick: a representative subset of the mutations, thorough: all). "
+             "Non-trivial = every rewritten run; distinct by (variant, mutation, schedule)." % (
                  len({c["variant"]["name"] for c in rows}), len({c["mut"] for c in cases})),
         assumptions=["hash, PRF, pairing injective (premises PRF_inj, pair_inj, H_inj of the theorems); signatures / AEAD "
                      "idealised: a CertificateVerify verifies iff the two transcripts up to ClientKeyExchange are equal, a "
@@ -346,4 +364,10 @@ def run(chk):
                      "first (cookie-less) ClientHello, only the second",
                      "the effect of each rewrite on the two views is classified in checks/c04.py from what is rewritten; "
                      "the outcome is computed by the symbolic model",
+                     "the symbolic model has no notion of delivery schedule and needs none: completion requires the check of "
+                     "the peer's Finished against the local transcript however the flight was cut into datagrams "
+                     "(finished_binds_transcript, server_binds_when_checking are statements about the views only); the 'split' "
+                     "schedule exercises re-entry of the flight parsers with partial flights on the implementation and is "
+                     "predicted like the unsplit run. Small-MTU runs are not a separate dimension: the rewriter leaves "
+                     "fragmented messages alone, and 'split' already yields one record per datagram",
                      "encrypted messages (Finished, all DTLS 1.3 messages after ServerHello) are not rewritten: C05/C20"])
